@@ -10,6 +10,9 @@ E1 (domain enumeration on the real values.eq/neq/lt/gt/lte/gte):
            neighbours; non-canonical zero encodings with and without sign bit), six operators
   int-all  every one of the 65536 integers against core integers/singles/doubles, both orders
 
+  expr     all ordered pairs of the core values in composite expressions that hold several
+           comparison results at once, through the Session API (parser, evaluator, DEF FN)
+
 Oracle: exact order of value*2^184 (Python ints, models/mbf.py).  Each result must be the
 Integer -1 or 0; trichotomy and <= == NOT > (etc.) are asserted separately.
 """
@@ -127,6 +130,7 @@ def compare_pair(part, X, kx, Y, ky, sx, sy, count):
     e_gt = kx > ky
     expect = (e_eq, not e_eq, e_lt, e_gt, not e_gt, not e_lt)
     res = []
+    live = []
     for (name, fn), e in zip(OPS, expect):
         try:
             r = fn(X, Y)
@@ -141,6 +145,7 @@ def compare_pair(part, X, kx, Y, ky, sx, sy, count):
                 continue
             raise
         rb = bytes(r._buffer)
+        live.append((name, r, rb))
         if type(r) is not N.Integer or rb not in (TRUE, FALSE):
             part.violation('%s/%s%s/not-minus-one-or-zero' % (name, TN[sx], TN[sy]),
                            '%s %s %s returned %r' % (_txt(X), name, _txt(Y), r), _case(X, Y))
@@ -152,6 +157,11 @@ def compare_pair(part, X, kx, Y, ky, sx, sy, count):
             zx = 'zero' if (kx == 0 or ky == 0) else 'nonzero'
             part.violation('%s/%s%s/%s/wrong' % (name, TN[sx], TN[sy], zx), '%s %s %s gave %d, exact order says %d' % (
                 _txt(X), name, _txt(Y), -v, -e), _case(X, Y))
+    # an expression may hold any number of comparison results at once: each stays what it was
+    for name, r, rb in live:
+        if bytes(r._buffer) != rb:
+            part.violation('result-not-stable/%s' % name, '%s %s %s: result %s became %s after later comparisons' % (
+                _txt(X), name, _txt(Y), rb.hex(), bytes(r._buffer).hex()), _case(X, Y))
     if None not in res:
         eq, neq, lt, gt, lte, gte = res
         if (eq + lt + gt) != 1:
@@ -245,6 +255,68 @@ def work_int_all(shard):
     return part
 
 
+def _lit(size, b):
+    if size == 2:
+        return '%d' % struct.unpack('<h', b)[0]
+    return '%s(%s)' % ('CVS' if size == 4 else 'CVD', '+'.join('CHR$(%d)' % c for c in bytearray(b)))
+
+
+EXPRS = [
+    # (template, expected value by relation '<', '=', '>')
+    ('({a}<{b})+2*({a}={b})+4*({a}>{b})', {'<': -1, '=': -2, '>': -4}),
+    ('(({a}<{b}) OR ({a}={b}))=({a}<={b})', {'<': -1, '=': -1, '>': -1}),
+    ('({a}<>{b})=NOT({a}={b})', {'<': -1, '=': -1, '>': -1}),
+    ('({a}>={b})=NOT({a}<{b})', {'<': -1, '=': -1, '>': -1}),
+    ('FNT({a}<{b},{a}={b},{a}>{b})', {'<': -100, '=': -10, '>': -1}),
+    ('({a}<{b})+(({a}={b})+({a}>{b}))', {'<': -1, '=': -1, '>': -1}),
+    ('({a}<={b})+(({a}>={b})+(({a}<>{b})+({a}={b})))', {'<': -2, '=': -3, '>': -2}),
+    ('({a}<{b})*100+({b}<{a})*10+({a}={b})*(1+({b}={a}))', {'<': -100, '=': 0, '>': -10}),
+    ('(({a}<{b})>({a}>{b}))+2*(({a}<{b})<({a}>{b}))', {'<': -2, '=': 0, '>': -1}),
+]
+SUF = {2: '%', 4: '!', 8: '#'}
+
+
+def work_expr(shard):
+    """Composite relational expressions through the real parser and expression evaluator."""
+    from mc import harness
+    quick, lo, hi = shard
+    part = Partial()
+    core = core_values(quick)
+    s = harness.new_session()
+    try:
+        harness.run(s, b'DEF SEG:KEY OFF')
+        harness.enter_program(s, [b'10 DEF FNT(P,Q,R)=P*100+Q*10+R'])
+        harness.run(s, b'RUN')
+        for sx, bx in core[lo:hi]:
+            kx = mbf.scaled_bytes(bx)
+            a = 'A' + SUF[sx]
+            for sy, by in core:
+                ky = mbf.scaled_bytes(by)
+                b = 'B' + SUF[sy]
+                rel = '=' if kx == ky else ('<' if kx < ky else '>')
+                harness.run(s, ('%s=%s:%s=%s' % (a, _lit(sx, bx), b, _lit(sy, by))).encode('latin-1'))
+                for names in ((a, b), (_lit(sx, bx) if sx == 2 else a, b)):
+                    for tmpl, exp in EXPRS:
+                        text = 'PRINT ' + tmpl.format(a=names[0], b=names[1])
+                        if len(text) > 250:
+                            continue
+                        r = harness.run(s, text.encode('latin-1'))
+                        got = r.out.strip()
+                        part.n += 1
+                        if r.exc is not None and not from_pcbasic(r.exc):
+                            raise r.exc
+                        if r.exc is not None or got != str(exp[rel]).encode('latin-1'):
+                            part.violation('expr/%s%s/wrong' % (TN[sx], TN[sy]), '%s with %s:%s, %s:%s printed %r, expected %d%s' % (
+                                text, a, bx.hex(), b, by.hex(), got, exp[rel], ' (%r)' % r.exc if r.exc else ''),
+                                {'sx': sx, 'x': bx, 'sy': sy, 'y': by, 'quick': quick})
+                part.classes.add('expr %s%s %s' % (TN[sx], TN[sy], rel))
+        part.traces = part.n
+        part.sample({'core': [lo, hi], 'of': len(core)})
+    finally:
+        s.close()
+    return part
+
+
 def legs(ctx):
     q = ctx.quick
     vs = value_set(q)
@@ -256,11 +328,19 @@ def legs(ctx):
     core = core_values(q)
     out.append(Leg('int-all', [(q, lo, lo + 1024) for lo in range(-32768, 32768, 1024)], work_int_all, exhaustive=False,
                    bound='complete enumeration of all 65536 integers x %d core values (integers, singles, doubles), both orders x 6 operators' % len(core)))
+    out.append(Leg('expr', [(q, lo, min(lo + 2, len(core))) for lo in range(0, len(core), 2)], work_expr, exhaustive=False,
+                   bound='complete enumeration of all ordered pairs of %d core values x %d composite expressions holding 2-6 '
+                         'comparison results at once (sums, nested comparisons, user-function arguments), through the '
+                         'Session API parser and evaluator' % (len(core), len(EXPRS))))
     return out
 
 
 def replay(ctx, leg, case):
     part = Partial()
+    if leg == 'expr':
+        core = core_values(case.get('quick', True))
+        idx = [i for i, (sz, b) in enumerate(core) if sz == case['sx'] and b == bytes(case['x'])]
+        return work_expr((case.get('quick', True), idx[0], idx[0] + 1)) if idx else part
     vals = num.make_values()
     (X, kx, sx, bx), (Y, ky, sy, by) = _objects(vals, [(case['sx'], bytes(case['x'])), (case['sy'], bytes(case['y']))])
     compare_pair(part, X, kx, Y, ky, sx, sy, [0])
